@@ -39,3 +39,28 @@ int wglue_nothread(void) {
     return 0;
 #endif
 }
+
+/* ---- two more "modules" in the shape the translator generates, living in the same process: module B exports a helper
+ * and its own wasi_thread_start, module C exports no wasi_thread_start. thread-spawn receives the spawning instance and
+ * has to use THAT module's export table. */
+typedef struct FakeInstance { wasmModuleInstance common; int which; int is_child; struct FakeInstance* parent; } FakeInstance;
+WglueFakeStart wglue_fake_starts[WGLUE_FAKE_MAX];
+int wglue_fake_nstarts;
+static void fake_helper(void* inst) { (void)inst; }
+static void fakeB_thread_start(void* inst, U32 tid, U32 arg) {
+    FakeInstance* i = (FakeInstance*)inst;
+    if (wglue_fake_nstarts < WGLUE_FAKE_MAX) {
+        WglueFakeStart* r = &wglue_fake_starts[wglue_fake_nstarts++];
+        r->tid = tid; r->arg = arg; r->which = i ? i->which : -1; r->on_child = i && i->is_child && i->parent && i->parent->which == i->which;
+    }
+}
+static wasmFuncExport fakeB_exports[] = { { (wasmFunc)fake_helper, "helper" }, { (wasmFunc)fakeB_thread_start, "wasi_thread_start" }, { NULL, NULL } };
+static wasmFuncExport fakeC_exports[] = { { (wasmFunc)fake_helper, "helper" }, { (wasmFunc)fake_helper, "wasi_thread_star" }, { NULL, NULL } };
+static wasmModuleInstance* fake_new_child(wasmModuleInstance* self) {
+    FakeInstance* c = (FakeInstance*)calloc(1, sizeof(FakeInstance));
+    *c = *(FakeInstance*)self; c->is_child = 1; c->parent = (FakeInstance*)self;
+    return &c->common;
+}
+static FakeInstance fakeB = { { fakeB_exports, NULL, fake_new_child }, 1, 0, NULL };
+static FakeInstance fakeC = { { fakeC_exports, NULL, fake_new_child }, 2, 0, NULL };
+int wglue_fake_spawn(int which, unsigned arg) { return (int)wasi__threadX2Dspawn((void*)(which == 1 ? &fakeB.common : &fakeC.common), arg); }
